@@ -1,7 +1,8 @@
 (* C04 — NodeID textual form round-trips and equality matches identity.
    model : Model.NodeIdText (render = NodeID.String, parse = ua.ParseNodeID, parse_expanded = ua.ParseExpandedNodeID, equal = Equal,
            registry keyed by the text form) — hand-written transcription, tied to /repo by correspondence (nodeidharness).
-   `render` is the code after the fix "NodeID.String of a namespace-0 string id containing ';'"; `render_gen true` is the code before. *)
+   `render`, `guid_string`, `new_guid_nodeid` are the code after the three C04 fixes in /repo; `render_gen true`, `guid_string_old` and the
+   NGuid _ None state are the code before. *)
 From Coq Require Import List Bool NArith ZArith.
 From Coq.Strings Require Import Byte.
 From Opcua Require Import Model.PureBytes Proofs.PureBytesProofs Model.NodeIdText Proofs.NodeIdTextProofs.
@@ -17,20 +18,21 @@ Theorem C04_hex_roundtrip : forall l : bytes, unhex (hex_bytes l) = Some l.
 Proof. exact unhex_hex. Qed.
 Theorem C04_base64_roundtrip : forall l : bytes, b64_decode (b64_encode l) = Some l.
 Proof. exact b64_roundtrip. Qed.
-Theorem C04_guid_roundtrip : forall g, wf_guid g = true -> guid_string g = Ok (guid_text g) /\ new_guid (guid_text g) = Some g.
-Proof. intros g H. split; [apply guid_string_wf | apply new_guid_text]; exact H. Qed.
+Theorem C04_guid_roundtrip : forall g, wf_guid g = true -> guid_string g = Ok (guid_text g) /\ new_guid (guid_text g) = Some (norm_guid g).
+Proof. intros g H. split; [reflexivity | apply new_guid_text; exact H]. Qed.
 
 (* ---- the property ---- *)
-(* ids the public constructors produce: well-formed ones, and NewGUIDNodeID(ns, s) for ANY string s *)
-Definition constructible (n : nodeid) : Prop := wf_id n = true \/ exists ns s, ns < 65536 /\ n = NGuid ns (new_guid s).
+(* every NodeID value reachable through the public API: any of the six encodings with field values in the range of the Go types
+   (a GUID may have a Data4 of any length, e.g. decoded from a truncated buffer), and NewGUIDNodeID(ns, s) for ANY string s *)
+Definition constructible (n : nodeid) : Prop := wf_id n = true \/ exists ns s, ns < 65536 /\ n = new_guid_nodeid ns s.
 
 (* full statement: every constructible id renders, the rendering parses, and the result is Equal to the original *)
-Definition C04_statement (short_form_always : bool) : Prop :=
-  forall n, constructible n -> exists s n', render_gen short_form_always n = Ok s /\ parse s = Ok n' /\ equal_gen short_form_always n' n = Ok true.
+Definition C04_statement : Prop :=
+  forall n, constructible n -> exists s n', render n = Ok s /\ parse s = Ok n' /\ equal n' n = Ok true.
 
-(* strongest true theorem: all well-formed ids of all six encodings (every namespace, every identifier: any bytes, ';', '=',
-   prefix look-alikes, empty); the parser returns the smallest numeric encoding (canon), which denotes the same node *)
-Theorem C04_partial_wf : forall n, wf_id n = true ->
+(* more precisely: the parser returns the smallest numeric encoding / the GUID with an 8-byte Data4 (canon), which is Equal to
+   the original and denotes the same node.  Identifiers: any bytes, ';', '=', prefix look-alikes, empty. *)
+Theorem C04_roundtrip_canon : forall n, wf_id n = true ->
   exists s, render n = Ok s /\ parse s = Ok (canon n) /\ equal (canon n) n = Ok true /\ node_of (canon n) = node_of n.
 Proof.
   intros n H. destruct (parse_render_wf n H) as (s & Rs & Ps). exists s. split; [exact Rs|]. split; [exact Ps|].
@@ -39,19 +41,27 @@ Proof.
   rewrite Er. f_equal. apply Hr. apply node_of_canon. exact H.
 Qed.
 
-(* refuted: a GUID id made from a string that is not a GUID holds a nil GUID; it renders as "g=", which does not parse *)
-Theorem C04_refuted_guid_unparsable_string : ~ C04_statement false.
+Theorem C04_full : C04_statement.
 Proof.
-  intro H. destruct (H (NGuid 0 (new_guid [x7a; x7a]))) as (s & n' & Rs & Ps & _).
-  - right. exists 0, [x7a; x7a]. split; reflexivity.
-  - vm_compute in Rs. inversion Rs; subst. vm_compute in Ps. discriminate Ps.
+  intros n Hc. assert (H : wf_id n = true).
+  { destruct Hc as [H|(ns & s & Hns & ->)]; [exact H | apply new_guid_nodeid_wf; exact Hns]. }
+  destruct (C04_roundtrip_canon n H) as (s & Rs & Ps & Eq & _). exists s, (canon n). repeat split; assumption.
 Qed.
 
-(* a GUID whose Data4 has fewer than two bytes (reachable by decoding a truncated buffer) makes String() panic *)
-Theorem C04_refuted_guid_short_data4 : render (NGuid 0 (Some (G 1 2 3 [x01]))) = Panic.
+(* String() never panics on any such id (it used to, see below) *)
+Theorem C04_string_total : forall n, constructible n -> exists s, render n = Ok s.
+Proof. intros n Hc. destruct (C04_full n Hc) as (s & _ & Rs & _). exists s. exact Rs. Qed.
+
+(* the three defects repaired in /repo, as statements about the code before the fixes *)
+Theorem C04_refuted_before_fix_guid_short_data4 : guid_string_old (G 1 2 3 [x01]) = Panic.
 Proof. reflexivity. Qed.
 
-(* the defect repaired by the fix: with the short form used unconditionally, even well-formed ids fail (ns 0, "a;b") *)
+(* before: NewGUIDNodeID(0, "zz") kept NewGUID's nil; that state renders "g=", which does not parse *)
+Theorem C04_refuted_before_fix_guid_unparsable_string :
+  new_guid [x7a; x7a] = None /\ render (NGuid 0 None) = Ok [x67; x3d] /\ parse [x67; x3d] = Err EInvalidGuid.
+Proof. vm_compute. repeat split; reflexivity. Qed.
+
+(* before: with the short form used unconditionally, a namespace-0 string id containing ';' does not parse back *)
 Theorem C04_refuted_before_fix_semicolon :
   wf_id (NString 0 [x61; x3b; x62]) = true /\ render_gen true (NString 0 [x61; x3b; x62]) = Ok [x73; x3d; x61; x3b; x62] /\
   parse [x73; x3d; x61; x3b; x62] = Err EInvalidNodeID.
@@ -105,7 +115,7 @@ Proof. exact registry_roundtrip. Qed.
 (* hypotheses are satisfiable: ids of all six encodings, incl. the 65535 quirk and a string full of separators *)
 Example C04_nonvacuous :
   forallb wf_id [NTwoByte 0 255; NFourByte 255 65535; NNumeric 65535 4294967295; NString 0 [x6e;x73;x3d;x31;x3b;x69;x3d;x32];
-                 NGuid 7 (Some (G 1588331804 49939 17367 [xb7;x90;x24;xaa;x2c;x3c;xfd;x37])); NOpaque 0 []; NOpaque 9 [x00;xff;x3b]] = true /\
+                 NGuid 7 (Some (G 1588331804 49939 17367 [xb7;x90;x24;xaa;x2c;x3c;xfd;x37])); NGuid 0 (Some (G 1 2 3 [x01])); new_guid_nodeid 3 [x7a;x7a]; NOpaque 0 []; NOpaque 9 [x00;xff;x3b]] = true /\
   canon (NFourByte 255 65535) = NNumeric 255 65535 /\ canon (NNumeric 0 7) = NTwoByte 0 7 /\
   find_uri [[x61]; [x62]; [x62]] [x62] 0 = Some 1%nat.
 Proof. vm_compute. repeat split; reflexivity. Qed.
@@ -115,9 +125,11 @@ Print Assumptions C04_parseuint_decimal.
 Print Assumptions C04_hex_roundtrip.
 Print Assumptions C04_base64_roundtrip.
 Print Assumptions C04_guid_roundtrip.
-Print Assumptions C04_partial_wf.
-Print Assumptions C04_refuted_guid_unparsable_string.
-Print Assumptions C04_refuted_guid_short_data4.
+Print Assumptions C04_roundtrip_canon.
+Print Assumptions C04_full.
+Print Assumptions C04_string_total.
+Print Assumptions C04_refuted_before_fix_guid_short_data4.
+Print Assumptions C04_refuted_before_fix_guid_unparsable_string.
 Print Assumptions C04_refuted_before_fix_semicolon.
 Print Assumptions C04_equal_iff.
 Print Assumptions C04_equal_ignores_expanded_flags.
